@@ -515,16 +515,7 @@ class Core(composites.Composite):
 
         spatialLocator = spatialLocator or a.spatialLocator
 
-        if spatialLocator is not None and spatialLocator in self.childrenByLocator:
-            raise ValueError(
-                "Cannot add {} because location {} is already filled by {}."
-                "".format(
-                    aName, spatialLocator, self.childrenByLocator[spatialLocator]
-                )
-            )
-
-        composites.Composite.add(self, a)
-
+        # validate everything before the core is changed, so that a refused add leaves it as it was
         if spatialLocator is not None:
             # transfer spatialLocator to Core one
             spatialLocator = self.spatialGrid[tuple(spatialLocator.indices)]
@@ -536,10 +527,13 @@ class Core(composites.Composite):
                         spatialLocator, self.spatialGrid.symmetry.domain
                     )
                 )
-            a.moveTo(spatialLocator)
-
-        self.childrenByLocator[spatialLocator] = a
-        # build a lookup table for history tracking.
+            if spatialLocator in self.childrenByLocator:
+                raise ValueError(
+                    "Cannot add {} because location {} is already filled by {}."
+                    "".format(
+                        aName, spatialLocator, self.childrenByLocator[spatialLocator]
+                    )
+                )
         if aName in self.assembliesByName and self.assembliesByName[aName] != a:
             # try to keep assem numbering correct
             runLog.error(
@@ -549,6 +543,13 @@ class Core(composites.Composite):
             )
             raise RuntimeError("Core already contains an assembly with the same name.")
 
+        composites.Composite.add(self, a)
+
+        if spatialLocator is not None:
+            a.moveTo(spatialLocator)
+
+        self.childrenByLocator[spatialLocator] = a
+        # build a lookup table for history tracking.
         self.assembliesByName[aName] = a
         for b in a:
             self.blocksByName[b.getName()] = b
